@@ -378,6 +378,17 @@ def dispatch(index, rep, sinfo):
             k = str_const(st.test.left)
             if k and norm_src(st.test.comparators[0]) in ("scenario_option.keys()", "scenario_option"):
                 present.add((k, st.lineno))
+        # the same assertion made in a loop over a literal list of required keys
+        if isinstance(st, ast.For) and isinstance(st.target, ast.Name):
+            from .core import Inliner
+            it_src = Inliner(fn).expr(st.iter)
+            keys_ = [str_const(e) for e in it_src.elts] if isinstance(it_src, (ast.List, ast.Tuple, ast.Set)) else []
+            if keys_ and all(keys_):
+                for a_ in st.body:
+                    if isinstance(a_, ast.Assert) and isinstance(a_.test, ast.Compare) and isinstance(a_.test.ops[0], ast.In) \
+                            and norm_src(a_.test.left) == st.target.id and norm_src(a_.test.comparators[0]) in ("scenario_option.keys()", "scenario_option"):
+                        for k in keys_:
+                            present.add((k, st.lineno))
     chains = {}
     order = []
     for st in fn.body:
@@ -832,17 +843,44 @@ def override(index, rep):
         ok = False
         got = []
         if len(blk) == 1:
-            for s in walk_no_nested(blk[0]):
-                if isinstance(s, ast.AugAssign):
-                    base, ks = key_chain(s.target)
-                    okk = base == "constants_for_params" and isinstance(s.op, ast.Mult) and norm_src(s.value) == "multiplier"
-                    got.append(ks[0] if okk and ks else "?" + norm_src(s))
-                elif isinstance(s, ast.Assign) and isinstance(s.targets[0], ast.Subscript):
-                    got.append("?" + norm_src(s))
-            want = [f"{prefix}{i}" for i in range(1, 12)]
-            ok = sorted(got) == sorted(want)
+            # the block is executed abstractly: every RATIO_*_YEARn constant must end up multiplied by the option's value, once,
+            # and no other constant may change
+            from .symx import Interp as _I, PDict as _PD, Unsupported as _U, explore as _ex, Abort as _Ab
+            from .rat import Rat as _R
+            keys_all = [f"{p_}{i}" for p_ in ("RATIO_CROPS_YEAR", "RATIO_GRASSES_YEAR") for i in range(1, 13)] + ["OTHER"]
+            mval = _R.atom(("option", opt))
+
+            def run_b(it_):
+                def hk(interp, d, a, kw, node):
+                    if d in ("float", "int") and len(a) == 1:
+                        return a[0]
+                    return NotImplemented
+                it_.call_hook = hk
+                cfp = _PD({k_: _R.atom(("c", k_)) for k_ in keys_all})
+                env_ = {"constants_for_params": cfp, "scenario_option_copy": _PD({opt: mval})}
+                it_.exec_block([x for x in blk[0].body if not isinstance(x, ast.Assert)], env_)
+                return cfp
+
+            try:
+                outs = [r_ for _, _, r_, _ in _ex(run_b, month_classes=False) if not isinstance(r_, _Ab)]
+            except _U as e:
+                outs = []
+                got = [f"?outside the analysed fragment: {e}"]
+            ok = bool(outs)
+            for cfp in outs:
+                for k_ in keys_all:
+                    v_ = cfp.d.get(k_)
+                    scaled = k_.startswith(prefix) and k_[len(prefix):] in [str(i) for i in range(1, 12)]
+                    want_v = _R.atom(("c", k_)) * mval if scaled else _R.atom(("c", k_))
+                    if not (isinstance(v_, _R) and v_ == want_v):
+                        ok = False
+                        got.append(f"{k_} -> {v_}")
+                extra = [k_ for k_ in cfp.d if k_ not in keys_all]
+                if extra:
+                    ok = False
+                    got.append(f"writes {extra}")
         rep.check(ok, rule, f"override:{opt}",
-                  f"{opt} must scale exactly {prefix}1..11 once each and nothing else (got {sorted(got)})", loc=loc(RUN, fn))
+                  f"{opt} must scale exactly {prefix}1..11 once each and nothing else ({sorted(got)[:4]})", loc=loc(RUN, fn))
     rep.require_min(rule, 20)
 
 
